@@ -99,9 +99,6 @@ def run_case(case, tier):
         if K.declared_types_violated(prog, eng, dists):
             res.update(verdict="inconclusive", reason="declared-type-false")
             return res
-        if not all(eng.is_discrete_dist(d) for d in dists):
-            res.update(verdict="inconclusive", reason="oracle-unsupported", detail="continuous values under a guard")
-            return res
     except (Unsupported, CapExceeded, DomainError, laws.Divergent) as e:
         res.update(verdict="inconclusive", reason="oracle-" + type(e).__name__, detail=str(e)[:100])
         return res
@@ -125,8 +122,12 @@ def run_case(case, tier):
     # long reference run for limits
     long_dists = None
     try:
-        eng2 = Engine(prog, params, inits, max_states=20000 if tier == "quick" else 60000)
-        long_dists = eng2.run(2 * KK)
+        with K.soft_timeout(6 if tier == "quick" else 60):
+            eng2 = Engine(prog, params, inits, max_states=20000 if tier == "quick" else 60000)
+            long_dists = eng2.run(2 * KK)
+    except K.SoftTimeout:
+        long_dists = None
+        res["extra"]["limit-oracle-soft-timeout"] = 1
     except (CapExceeded, Unsupported, DomainError) as e:
         res["extra"]["limit-oracle-" + type(e).__name__] = 1
     compared = 0
@@ -137,8 +138,12 @@ def run_case(case, tier):
         mono = se_sympify(P.monom_str(g))
         # ---- (1) the conditional sequence (raw moment of the goal monomial)
         try:
-            seq, is_exact = get_moment_given_termination(mono, ga.solvers, rb, args, program)
+            with K.soft_timeout(8 if tier == "quick" else 40):
+                seq, is_exact = get_moment_given_termination(mono, ga.solvers, rb, args, program)
             res["events"]["get_moment_given_termination"] = res["events"].get("get_moment_given_termination", 0) + 1
+        except K.SoftTimeout:
+            res["extra"]["sequence-soft-timeout"] = res["extra"].get("sequence-soft-timeout", 0) + 1
+            continue
         except Exception as e:
             res["refusals"].append(P.refusal_key(e))
             continue
@@ -181,13 +186,18 @@ def run_case(case, tier):
         if long_dists is None:
             continue
         try:
-            if kind == "E":
-                lim, _ = ga.handle_moment_goal([mono])
-            elif kind == "c2":
-                lim, _ = ga.handle_central_moment_goal([2, mono])
-            else:
-                lim, _ = ga.handle_cumulant_goal([int(kind[1]), mono])
+            with K.soft_timeout(6 if tier == "quick" else 60):
+                if kind == "E":
+                    lim, _ = ga.handle_moment_goal([mono])
+                elif kind == "c2":
+                    lim, _ = ga.handle_central_moment_goal([2, mono])
+                else:
+                    lim, _ = ga.handle_cumulant_goal([int(kind[1]), mono])
             res["events"]["GoalsAction.after_loop"] = res["events"].get("GoalsAction.after_loop", 0) + 1
+        except K.SoftTimeout:
+            # sympy's limit_seq can run away; the conditional sequence above has been compared already
+            res["extra"]["limit-soft-timeout"] = res["extra"].get("limit-soft-timeout", 0) + 1
+            continue
         except Exception as e:
             res["refusals"].append("after_loop:" + P.refusal_key(e))
             continue
